@@ -14,6 +14,8 @@ CLAIMS = {
          "Coq proof + differential correspondence"),
  "C08": ("proof", "Coq theorem C08_child_vs_add (both requests from the same reached state, every history, every p, both backends); correspondence: GetChildVersion(p) then AddVersion(p) on replayed copies of visited states for every class of p.", "DESIGN.md 6 C08", L1,
          "Coq proof + differential correspondence"),
+ "C09": ("proof", "Coq theorem C09_noninterference: on both backend models, for every history and client, the responses to the client's own requests equal the responses of its requests run alone (id arguments unrestricted, foreign ids included); correspondence: two-run non-interference on the real backends (each client's projection re-run alone on a fresh backend) plus model comparison.", "DESIGN.md 6 C09", L1,
+         "Coq proof (two-run simulation over the abstract store) + two-run differential test"),
  "C10": ("proof", "Coq theorems C10_snapshot_rule (acceptance iff the rule of the property, over the five most recent versions), C10_snapshot_monotone, C10_declined_no_effect, C10_base_corner (the open corner characterised) for every history and backend; correspondence: exhaustive small scope (chain length x base x existing snapshot position x requested version) plus random histories on both real backends with dumps before/after, compared with the extracted model and with a rule oracle written from the property text.", "DESIGN.md 6 C10", L1,
          "Coq proof + exhaustive small-scope differential correspondence"),
  "C11": ("proof", "Coq theorems C11_get_snapshot_latest (GetSnapshot = the most recently accepted upload, recomputed from requests/responses by the rule) and C11_snapshot_usable_base (walk from the snapshot id yields the rest of the chain, never gone) for every history and backend; correspondence: GetSnapshot + walk from the snapshot after every operation on both real backends. The concurrent half (overlap with AddVersion) is decided under C03.", "DESIGN.md 6 C11", L1,
